@@ -7,14 +7,17 @@ CFG.update({
     "rule": C01["rule"].split(" Judged:")[0] + " Judged: every lookup that answers, or by the table should answer, "
             "404 or 405: the status and, for 405, the exact list of Allow values (HttpError.headers) against the "
             "declarative matcher and against the trie model. The generator biases ranges so that a path has "
-            "different method sets at different versions.",
+            "different method sets at different versions. The same judgement over the live slice (Allow header lines "
+            "off the wire) and the pipeline slice (real server under a version policy: 404/405 only after the policy "
+            "yields a version and the path normalises).",
     "manifest": {
         "category": "proof",
         "text": "Unbounded Coq theorems over the trie model: 404 iff no declaration's template and version range "
                 "match the request for any method; a 405 carries exactly - sorted, duplicate-free, non-empty - the "
                 "methods for which the path is served at that version, and the request's own method is not among "
                 "them; 405 iff some method is served and the request's is not; Found/404/405 are exhaustive (no "
-                "assertion failure) on every registered table. Correspondence with lookup_route (status and Allow "
+                "assertion failure) on every registered table; the same through the composed request pipeline "
+                "(version policy, path normalisation, trie). Correspondence with lookup_route (status and Allow "
                 "header values) on generated tables and grids, judged in Coq.",
         "design_ref": "DESIGN.md section 6 C04",
         "note": "as C01; HttpError -> wire response (status line, header bytes) is covered by the live slice of C13/C18, "
